@@ -59,6 +59,13 @@ func c11lockRule(R string) RuleFunc {
 					who := ""
 					for _, e := range c.P.CallersOf(f) {
 						if !isMethod[e.Caller.Func] {
+							// a constructor that calls the helper on the object it has just allocated: nobody
+							// else can hold that object yet
+							if e.Site != nil && len(e.Site.Common().Args) > 0 {
+								if al, isAl := e.Site.Common().Args[0].(*ssa.Alloc); isAl && al.Parent() == e.Caller.Func {
+									continue
+								}
+							}
 							okc = false
 							who = core.FuncName(e.Caller.Func)
 						}
